@@ -277,6 +277,26 @@ theorem C02_bodies :
     sanitizationContextForElementContent (B "script") = some .Script ∧
     sanitizationContextForElementContent (B "style") = some .StyleSheet := by decide +kernel
 
+/-- **element bodies**: an action directly inside a script (style) element — whatever state the body scanner is in,
+    as long as it is not a tag, attribute or comment position — gets exactly the chain `[_sanitizeScript]`
+    (`[_sanitizeStyleSheet]`), which fails on every untrusted value -/
+theorem C02_body_chain (v : Validators) (c : Ctx) (val : Value) (hu : Untrusted val)
+    (hn : c.elemNames = [] ∧ c.attrName = [] ∧ c.attrNames = [])
+    (hs : c.state ≠ .tag ∧ c.state ≠ .attrName ∧ c.state ≠ .afterName ∧ c.state ≠ .htmlCmt)
+    (he : c.elemName = [115, 99, 114, 105, 112, 116] ∨ c.elemName = [115, 116, 121, 108, 101]) :
+    ∃ chain, sanitizerForContext v c = some chain ∧ runChain chain val = .error .sanitizer := by
+  have hb1 : sanitizationContextForElementContent [115, 99, 114, 105, 112, 116] = some .Script := by decide +kernel
+  have hb2 : sanitizationContextForElementContent [115, 116, 121, 108, 101] = some .StyleSheet := by decide +kernel
+  rcases he with he | he
+  · refine ⟨["_sanitizeScript"], ?_, C02_typed_only_chain _ _ (by decide) val hu⟩
+    unfold sanitizerForContext sanitizerForElementContent
+    simp [hs.1, hs.2.1, hs.2.2.1, hs.2.2.2, hn.1, hn.2.1, hn.2.2, he, hb1, allSame, appendIfNotEmpty,
+      SC.sanitizerName]
+  · refine ⟨["_sanitizeStyleSheet"], ?_, C02_typed_only_chain _ _ (by decide) val hu⟩
+    unfold sanitizerForContext sanitizerForElementContent
+    simp [hs.1, hs.2.1, hs.2.2.1, hs.2.2.2, hn.1, hn.2.1, hn.2.2, he, hb2, allSame, appendIfNotEmpty,
+      SC.sanitizerName]
+
 /-! ### the chain in a typed-only attribute context fails on every untrusted value -/
 
 def typedSC (sc : SC) : Bool := sc == .Style || sc == .HTMLValOnly || sc == .Identifier || sc == .Script || sc == .StyleSheet
